@@ -196,6 +196,19 @@ func filterTrace(t []string, drop func(string) bool) []string {
 	return out
 }
 
+// c04NameClass: a stable class for a dangling name (generated names carry numbers)
+func c04NameClass(n string) string {
+	var b strings.Builder
+	for _, c := range n {
+		if c >= '0' && c <= '9' {
+			b.WriteByte('N')
+		} else {
+			b.WriteRune(c)
+		}
+	}
+	return b.String()
+}
+
 func checkC04(r *Run) {
 	r.Rule("projects of 2–5 ES modules whose top-level code is drawn from a table of ~215 statements with a hidden side effect (one per syntactic position the tree-shaking analysis inspects) shuffled with 21 kinds of removable declarations; imported for a used export, an unused export, or side effects only; " +
 		"bundled with tree shaking default/true/false × minify × format and run natively; traces of all bundles must equal the native trace. Annotation sub-workload: sideEffects:false packages and @__PURE__/@__NO_SIDE_EFFECTS__ calls, whose own events (keys R:) may disappear and nothing else; " +
@@ -204,7 +217,7 @@ func checkC04(r *Run) {
 	scratch, _ := os.MkdirTemp("/tmp", "verif-c04-")
 	defer os.RemoveAll(scratch)
 	nproj := r.pick(220, 4000)
-	var projRun, bundlesRun, hostileEvents int64
+	var projRun, bundlesRun, hostileEvents, freeScans int64
 	parallel(nproj, 16, func(i int) {
 		rng := newRng(r.Seed, fmt.Sprint("c04p", i))
 		dir := filepath.Join(scratch, fmt.Sprint("p", i))
@@ -264,6 +277,26 @@ func checkC04(r *Run) {
 				variants = append(variants, bv{fmt.Sprintf("tree-shaking=%d,minify=%v,format=%s", ts, min, formatName(f)), ts, min, f})
 			}
 		}
+		// free names of the inputs (each file analysed on its own)
+		inputFree := map[string]bool{}
+		for p, code := range files {
+			if !strings.HasSuffix(p, ".mjs") && !strings.HasSuffix(p, ".js") && !strings.HasSuffix(p, ".cjs") {
+				continue
+			}
+			goal := "module"
+			if strings.HasSuffix(p, ".cjs") {
+				goal = "cjs"
+			}
+			var fr struct {
+				OK    bool     `json:"ok"`
+				Names []string `json:"names"`
+			}
+			if err := r.Pool().Call(map[string]interface{}{"op": "freenames", "code": code, "goal": goal}, &fr); err == nil && fr.OK {
+				for _, n := range fr.Names {
+					inputFree[n] = true
+				}
+			}
+		}
 		built := map[string]bv{}
 		for vi, v := range variants {
 			ext := map[api.Format]string{api.FormatESModule: ".mjs", api.FormatCommonJS: ".cjs", api.FormatIIFE: ".js"}[v.f]
@@ -280,6 +313,24 @@ func checkC04(r *Run) {
 			os.WriteFile(outFile, res.OutputFiles[0].Contents, 0o644)
 			id := fmt.Sprint("b", vi)
 			built[id] = v
+			// static scan: every free name of the bundle must be free in some input too (or be provided by the host / the module
+			// system); a name that was bound in the inputs and is free in the output refers to a declaration that was removed
+			{
+				goal := map[api.Format]string{api.FormatESModule: "module", api.FormatCommonJS: "cjs", api.FormatIIFE: "script"}[v.f]
+				var fr struct {
+					OK    bool     `json:"ok"`
+					Names []string `json:"names"`
+				}
+				if err := r.Pool().Call(map[string]interface{}{"op": "freenames", "code": string(res.OutputFiles[0].Contents), "goal": goal}, &fr); err == nil && fr.OK {
+					atomic.AddInt64(&freeScans, 1)
+					for _, n := range fr.Names {
+						if !inputFree[n] && n != "$" && n != "require" && n != "module" && n != "exports" && n != "__filename" && n != "__dirname" {
+							r.Violation("treeshake:dangling-reference:"+c04NameClass(n), fmt.Sprintf("bundle (%s) refers to %q, which no input leaves free: its declaration is not in the output", v.name, n),
+								map[string]interface{}{"files": files, "variant": v.name, "name": n, "output": trunc(string(res.OutputFiles[0].Contents), 20000)})
+						}
+					}
+				}
+			}
 			mode := map[api.Format]string{api.FormatESModule: "import", api.FormatCommonJS: "require", api.FormatIIFE: "script"}[v.f]
 			jobs = append(jobs, nodeJob{ID: id, File: outFile, Mode: mode})
 		}
@@ -348,6 +399,7 @@ func checkC04(r *Run) {
 		}
 	})
 	r.Count("projects_run_natively", int(projRun))
+	r.Count("bundles_scanned_for_dangling_references", int(freeScans))
 	r.Count("bundles_executed", int(bundlesRun))
 	r.Count("hostile_statement_events_native", int(hostileEvents))
 	r.Count("hostile_statement_forms", len(c04Hostile))
